@@ -7,6 +7,19 @@ is   sorted:  k <= l < binsize(y,z)  ==>  binx(y,z,k) <= binx(y,z,l).
   findLowerBound / findUpperBound   (inductive loop invariants, every bin length, every [lower, upper) window):
         the result r lies in [lower, upper]; every slot of the window before r has x < value (resp. <= value), every slot
         from r on has x >= value (resp. > value); the window shrinks strictly in every iteration (termination).
+
+  Voxels::Voxels, getVoxelIndex, insert   (no cell; symbolic coordinates, extents and cutoff):
+        at least one voxel per axis, positive voxel edges, origin = the minimum; for a location inside [min, max] the index is inside the
+        grid and the location lies in the CLOSED voxel [min + Y*edge, min + (Y+1)*edge] (closed because the top layer is clamped);
+        insert appends exactly (x, atom) to the bin of that voxel.
+
+  Voxels::getNeighbors   (no cell; symbolic grid, atom count, coordinates, cutoff; four nested loops cut by invariants):
+        for an ARBITRARY atom j < i whose voxel facts and bin slot are as established above and whose distance to atom i is below the
+        cutoff: j is appended (completeness -- the voxel ranges reach j's voxel, the x window [minx, maxx] contains x_j, the binary
+        searches (callee contracts, checked at the call sites) bracket j's slot, the scan reaches it and the distance test accepts it);
+        every appended atom has a smaller index and lies within the cutoff (soundness, no duplicates with the symmetric completion).
+  Not under contract: std::sort (assumed to sort each bin), the driver _compute_neighborlist (min/max scan, OpenMP loop, symmetric
+  completion, Cython wrapper) and every path with a periodic cell (known findings there) -- bounded layer only.
 """
 import z3
 
@@ -239,3 +252,75 @@ def get_neighbors_nonperiodic(ctx, case):
 
 
 contract("C10", FILE, "Voxels::getNeighbors(no-cell)", lang="c", replay="neighborlist", covers=["returned"], max_paths=200)(get_neighbors_nonperiodic)
+
+
+# ---- constructor + getVoxelIndex + insert, no periodic cell: the facts getNeighbors relies on --------------------------------------------------
+class RecBins(Bins):
+    """bins during construction/insertion: resize calls are accepted, push_back is recorded with the bin it went to"""
+
+    def __init__(self):
+        self.pushed = []
+
+    def c_method(self, interp, name, args):
+        if name == "resize":
+            return None
+        raise core.Unsupported(f"bins.{name}")
+
+    def c_index(self, interp, idx):
+        outer = self
+
+        class Row:
+            def c_method(self, interp, name, args):
+                if name == "resize":
+                    return None
+                raise core.Unsupported(f"bins[i].{name}")
+
+            def c_index(self, interp, j):
+                class Bin:
+                    def c_method(self, interp, name, args):
+                        if name == "resize" and args[0] == 0:
+                            return None
+                        if name == "push_back":
+                            outer.pushed.append((idx, j, args[0]))
+                            return None
+                        raise core.Unsupported(f"bins[i][j].{name}")
+                return Bin()
+        return Row()
+
+
+def voxel_index_nocell(ctx, case):
+    ex = ctx.ex
+    c = ctx.load_c(FILE, ["_compute_neighborlist"], **INC)
+    ctx.load_records(FILE, ["Voxels", "VoxelIndex"], include=INC["include"])
+    box = Region("periodicBoxVectors")
+    d, miny, maxy, minz, maxz = ctx.real("maxDistance"), ctx.real("miny"), ctx.real("maxy"), ctx.real("minz"), ctx.real("maxz")
+    loc = Region("location")
+    x, y, z = (z3.Select(loc.mem, k) for k in range(3))
+    atom = ctx.int("atom")
+    # what _compute_neighborlist passes: voxel edge = cutoff, [min, max] = the range of the coordinates, and the atom is one of them
+    ctx.assume(d > 0, miny <= maxy, minz <= maxz, miny.t <= y, y <= maxy.t, minz.t <= z, z <= maxz.t)
+    trivial = CLoopSpec(lambda interp, env, gh: [], lambda interp, env, gh: [])
+    c.loop_specs[("Voxels::Voxels", 0)] = trivial
+    c.loop_specs[("Voxels::Voxels", 1)] = trivial
+    bins = RecBins()
+    v = c.construct_record("Voxels", [d, d, miny, maxy, minz, maxz, Ptr(box, 0), False], preset={"bins": bins})
+    ny, nz, vy, vz = (v.fields[k] for k in ("ny", "nz", "voxelSizeY", "voxelSizeZ"))
+    ctx.cover("constructed")
+    ctx.ensure("constructor:at-least-one-voxel-per-axis", z3.And(term(ny) >= 1, term(nz) >= 1))
+    ctx.ensure("constructor:voxel-edges-positive", z3.And(rterm(vy) > 0, rterm(vz) > 0))
+    ctx.ensure("constructor:origin-is-the-minimum", z3.And(rterm(v.fields["miny"]) == miny.t, rterm(v.fields["minz"]) == minz.t))
+    vi = c.call_record_method(v, "getVoxelIndex", [Ptr(loc, 0)])
+    Y, Z = term(vi.fields["y"]), term(vi.fields["z"])
+    ctx.ensure("getVoxelIndex:index-inside-the-grid", z3.And(0 <= Y, Y < term(ny), 0 <= Z, Z < term(nz)))
+    ctx.ensure("getVoxelIndex:the-atom-lies-in-its-closed-voxel(y)", z3.And(z3.ToReal(Y) * rterm(vy) <= y - miny.t, y - miny.t <= (z3.ToReal(Y) + 1) * rterm(vy)))
+    ctx.ensure("getVoxelIndex:the-atom-lies-in-its-closed-voxel(z)", z3.And(z3.ToReal(Z) * rterm(vz) <= z - minz.t, z - minz.t <= (z3.ToReal(Z) + 1) * rterm(vz)))
+    if case == "insert":
+        c.call_record_method(v, "insert", [atom, Ptr(loc, 0)])
+        ctx.ensure("insert:one-entry-appended", len(bins.pushed) == 1)
+        if len(bins.pushed) == 1:
+            by, bz, pair = bins.pushed[0]
+            ctx.ensure("insert:into-the-bin-of-the-atom's-voxel", z3.And(term(by) == Y, term(bz) == Z))
+            ctx.ensure("insert:the-entry-is-(x,atom)", z3.And(rterm(pair.fields["first"]) == x, term(pair.fields["second"]) == atom.t))
+
+
+contract("C10", FILE, "Voxels::Voxels;getVoxelIndex;insert(no-cell)", cases=["index", "insert"], lang="c", replay="neighborlist", covers=["constructed"], max_paths=200)(voxel_index_nocell)
